@@ -249,7 +249,11 @@ class Interp:
         item = s.items[0]
         mgr = self.eval(frame, item.context_expr)
         mv = self.ctx.from_val(mgr) if isinstance(mgr, SV) else mgr
-        if isinstance(mv, SV) and isinstance(mv.ty, TAbs) and "__enter__" in mv.ty.methods and "__exit__" in mv.ty.methods:
+        if is_async and isinstance(mv, SV) and isinstance(mv.ty, TAbs) and "__aenter__" in mv.ty.methods and "__aexit__" in mv.ty.methods:
+            obj = mv
+            mgr = CtxMgr(lambda: self.await_(self.call(AbstractMethod(obj, "__aenter__", obj.ty.methods["__aenter__"]), [], {})),
+                         lambda exc: bool(self.await_(self.call(AbstractMethod(obj, "__aexit__", obj.ty.methods["__aexit__"]), [None, None, None], {}))) and False)
+        elif isinstance(mv, SV) and isinstance(mv.ty, TAbs) and "__enter__" in mv.ty.methods and "__exit__" in mv.ty.methods:
             # an abstract library object that is a context manager (a lock, a semaphore): its assumed __enter__ / __exit__ contracts
             obj = mv
             mgr = CtxMgr(lambda: self.call(AbstractMethod(obj, "__enter__", obj.ty.methods["__enter__"]), [], {}),
